@@ -51,22 +51,26 @@ def copy_args(fn, d, dmax, s, slen, bos, sbos, w=1):
     return [d, dmax, s, bosarg(bos, w)]
 
 
-def mk_copy_sep(fn, w, dmax, prior, srccells, slen, bos=None, objsize=None, dnull=False, snull=False, sbos=None):
-    """dest and src in separate regions, both flush right.
+def mk_copy_sep(fn, w, dmax, prior, srccells, slen, bos=None, objsize=None, dnull=False, snull=False, sbos=None, swap=False):
+    """dest and src in separate regions, both flush right; swap=True puts src at the LOWER address
+    (the `dest > src` twin of every copy loop).
     prior: list of cells for dest's object (len objsize); srccells: the whole src region."""
     objsize = objsize if objsize is not None else max(dmax, 1)
     dcells = (list(prior) + [X] * objsize)[:objsize]
-    regs = [Region(w, dcells), Region(w, srccells)]
+    dk, sk = (1, 0) if swap else (0, 1)
+    regs = [None, None]
+    regs[dk] = Region(w, dcells)
+    regs[sk] = Region(w, srccells)
     sstr = cstr(srccells)
     srd = len(srccells) if sstr is None else len(sstr) + 1
     if slen is not None:
         srd = min(srd, slen)
-    d = "null" if dnull else ptr(0)
-    s = "null" if snull else ptr(1)
-    W = [] if dnull else [(0, 0, min(dmax, objsize))]
-    Rd = ([] if dnull else [(0, 0, min(dmax, objsize))]) + ([] if snull else [(1, 0, srd)])
-    meta = dict(fam="copy", fn=fn, w=w, dest=None if dnull else (0, 0), dmax=dmax, bos=bos, objsize=objsize,
-                src=None if snull else (1, 0), slen=slen, sbos=sbos, srccells=list(srccells), prior=dcells,
+    d = "null" if dnull else ptr(dk)
+    s = "null" if snull else ptr(sk)
+    W = [] if dnull else [(dk, 0, min(dmax, objsize))]
+    Rd = ([] if dnull else [(dk, 0, min(dmax, objsize))]) + ([] if snull else [(sk, 0, srd)])
+    meta = dict(fam="copy", fn=fn, w=w, dest=None if dnull else (dk, 0), dmax=dmax, bos=bos, objsize=objsize,
+                src=None if snull else (sk, 0), slen=slen, sbos=sbos, srccells=list(srccells), prior=dcells,
                 place="sep", truthful=(dnull or dmax <= objsize) and (bos is None or bos <= objsize))
     return Op(fn, regs, copy_args(fn, d, dmax, s, slen, bos, sbos, w), W, Rd, meta)
 
@@ -128,6 +132,8 @@ def gen_copy(rng, tier, fns=None, widths=(1, 4)):
                             if sstr is None and bounded and slen > len(src):
                                 continue
                             ops.append(mk_copy_sep(fn, w, dmax, prior, src, slen))
+                            if prior[0] == X or dmax <= 3:
+                                ops.append(mk_copy_sep(fn, w, dmax, prior, src, slen, swap=True))
             # 2. boundary sweep across the 0x20 switch
             for dmax in (31, 32, 33, 34, 63, 64, 65):
                 for n in (0, 1, dmax - 2, dmax - 1, dmax, dmax + 1):
@@ -139,6 +145,7 @@ def gen_copy(rng, tier, fns=None, widths=(1, 4)):
                             continue
                         prior = [X] * dmax if fn not in CAT else ([0x70, 0x71, 0] + [X] * dmax)[:dmax]
                         ops.append(mk_copy_sep(fn, w, dmax, prior, src, slen))
+                        ops.append(mk_copy_sep(fn, w, dmax, prior, src, slen, swap=True))
             # 3. null / BOS / limits
             src = [0x61, 0x62, 0]
             sl = 2 if bounded else None
@@ -152,6 +159,7 @@ def gen_copy(rng, tier, fns=None, widths=(1, 4)):
                         if bos < dmax:
                             continue
                         ops.append(mk_copy_sep(fn, w, dmax, prior, src, sl, bos=bos, objsize=8))
+                        ops.append(mk_copy_sep(fn, w, dmax, prior, src, sl, bos=bos, objsize=8, swap=True))
                 # dmax above the known object size
                 ops.append(mk_copy_sep(fn, w, 9, prior, src, sl, bos=8, objsize=8))
                 ops.append(mk_copy_sep(fn, w, LIM[w] + 1, prior, src, sl, bos=8, objsize=8))
@@ -201,7 +209,7 @@ def gen_copy(rng, tier, fns=None, widths=(1, 4)):
             prior = ([rng.choice([0x70, 0x71, 0xFE]) for _ in range(pl)] + [0] + [X] * dmax)[:dmax]
         else:
             prior = [rng.choice([X, 0x59, 0])] * dmax if rng.random() < 0.2 else [X] * dmax
-        ops.append(mk_copy_sep(fn, w, dmax, prior, src, slen))
+        ops.append(mk_copy_sep(fn, w, dmax, prior, src, slen, swap=rng.random() < 0.5))
     return ops
 
 
@@ -333,4 +341,71 @@ def gen_memset(rng, tier):
         ops.append(mk_memset(fn, w, obj, 0, MEMLIM[w] + 1, 0, 0, kind="memzero"))
         ops.append(mk_memset(fn, w, obj, 0, 4, 0, 4, bos=8, kind="memzero"))
         ops.append(mk_memset(fn, w, obj, 0, 9, 0, 9, bos=8, kind="memzero"))
+    return ops
+
+
+# ------------------------------------------------------------------ products of simultaneous violations (C05)
+def gen_copy_violprod(rng, tier):
+    ops = []
+    for w in (1, 4):
+        for fn in COPY_FNS[w] + (["stpcpy_s", "stpncpy_s"] if w == 1 else []):
+            bounded = fn in BOUNDED
+            src = [0x61, 0x62, 0]
+            for dnull in (False, True):
+                for dmax in (0, 2, 4, LIM[w] + 1):
+                    for snull in (False, True):
+                        for slen in ((0, 2, 5, LIM[w] + 1) if bounded else (None,)):
+                            for bos in (None, 3, 8):
+                                for sbos in ((None, 1) if bounded else (None,)):
+                                    for prior in ([X] * 8, [0x70, 0] + [X] * 6):
+                                        o = mk_copy_sep(fn, w, dmax, prior, src, slen, bos=bos, objsize=8, dnull=dnull,
+                                                        snull=snull, sbos=sbos)
+                                        if dmax > 8 and bos is None and not dnull:
+                                            # over the limit, size unknown: point dest at the guard page: any touch faults
+                                            o.args[0] = ptr(0, 8)
+                                            o.W = []
+                                            o.Rd = [e for e in o.Rd if e[0] != 0]
+                                            o.meta["dest"] = (0, 8)
+                                            o.meta["objsize"] = 0
+                                            o.meta["early"] = True
+                                            o.meta["truthful"] = False
+                                        ops.append(o)
+    return ops
+
+
+def gen_mem_violprod(rng, tier):
+    ops = []
+    for fn, w in MEMCPY_FNS:
+        a = pat(24, w)
+        for dnull in (False, True):
+            for dmax in (0, 4, MEMLIM[w] + 1):
+                for snull in (False, True):
+                    for slen in (0, 3, 5, MEMLIM[w] + 1):
+                        for bos in (None, 3, 8):
+                            for sbos in (None, 2):
+                                for soff in (12, 2):   # disjoint / overlapping
+                                    o = mk_memcpy(fn, w, a, 0, dmax, soff, slen, bos=bos, sbos=sbos, dnull=dnull, snull=snull)
+                                    if dmax > 24:
+                                        o.meta["truthful"] = False
+                                    ops.append(o)
+    for fn, w in MEMSET_FNS:
+        obj = pat(8, w)
+        for dnull in (False, True):
+            for dmax in (0, 4, 8, MEMLIM[w] + 1):
+                for v in (0x41, 0x141 if w == 1 else 0x41):
+                    for n in (0, 2, 5, 9, MEMLIM[w] + 1):
+                        for bos in (None, 3, 8):
+                            o = mk_memset(fn, w, obj, 0, dmax, v, n, bos=bos, dnull=dnull)
+                            if dmax > 8:
+                                o.meta["truthful"] = False
+                            ops.append(o)
+    for fn, w in MEMZERO_FNS:
+        obj = pat(8, w)
+        for dnull in (False, True):
+            for dmax in (0, 4, 8, MEMLIM[w] + 1):
+                for bos in (None, 3, 8):
+                    o = mk_memset(fn, w, obj, 0, dmax, 0, dmax, bos=bos, dnull=dnull, kind="memzero")
+                    if dmax > 8:
+                        o.meta["truthful"] = False
+                    ops.append(o)
     return ops
